@@ -271,6 +271,49 @@ def _lowering_is_nontrivial_for(model, c):
 
 
 @rule(
+    "R11g",
+    ["C11", "C12", "C09"],
+    """A GROUP FILTER LIVES IN THE KEY SPACE OF THE GROUPS IT FILTERS: the shuffle layers hand a filter to their grouping task
+    (`_shuffle_group(df, _filter, ...)` keeps `{k: v for k, v in groups.items() if k in _filter}`). In the single-stage layer
+    the groups are keyed by output partition number, so the selected partition ids are the right filter; in the staged layer
+    the groups of a stage are keyed by that stage's DIGIT, so the filter must be derived from the digits
+    (`inputs[part][stage]`) - selected partition ids filter away the very groups the outputs need.""",
+)
+def r11g(ctx):
+    model = ctx.model
+    ts = model.cls("TaskShuffle")
+    ly = model.method(ts, "_layer", own=True).node
+    defs = flow.Defs(ly)
+    calls = [t for t in ast.walk(ly) if isinstance(t, ast.Tuple) and t.elts and is_self_attr(t.elts[0], "_shuffle_group") and len(t.elts) >= 3]
+    if not calls:
+        raise AnalysisError("anchor vanished: (self._shuffle_group, input, filter, ...) task of TaskShuffle._layer")
+    stage_var = next((n.target.id for n in ast.walk(ly) if isinstance(n, ast.For) and isinstance(n.target, ast.Name) and "range(stages)" in unparse(n.iter).replace(" ", "")), None)
+    if stage_var is None:
+        raise AnalysisError("anchor vanished: `for stage in range(stages)` of TaskShuffle._layer")
+    for i, t in enumerate(calls):
+        f = t.elts[2]
+        vals = [d.value for d in defs.reaching(f.id, t)] if isinstance(f, ast.Name) else [f]
+        bad = []
+        for v in vals:
+            if v is None or (isinstance(v, ast.Constant) and v.value is None):
+                continue
+            txt = unparse(v)
+            # every non-None alternative must be built from the stage digit of the plan entries
+            alts = [v.body, v.orelse] if isinstance(v, ast.IfExp) else [v]
+            for a in alts:
+                if isinstance(a, ast.Constant) and a.value is None:
+                    continue
+                if not (f"[{stage_var}]" in unparse(a)):
+                    bad.append(unparse(a))
+        cid = f"_shuffle.TaskShuffle._layer:stage-filter#{i}"
+        if bad:
+            ctx.bad(cid, ts.module.loc(t), f"the groups of a stage are keyed by the digit of that stage, but the filter handed to _shuffle_group is `{bad[0][:80]}` (output partition numbers): with a partition selection on a staged shuffle the groups the selected outputs need are filtered away (KeyError)")
+        else:
+            ctx.ok(cid, ts.module.loc(t), "filter derived from the stage digits (or None)")
+    ctx.floor("grouping tasks of the staged shuffle", len(calls), 1)
+
+
+@rule(
     "R11b",
     ["C11", "C14", "C01"],
     """PARTITION-DEPENDENT BLOCKWISE: a Blockwise class is not partitionwise if (a) its _task / _blockwise_arg uses the
